@@ -35,6 +35,7 @@ Definition sx_ev (e : ev) : sx :=
   | Fsync n => SL [sx_w "fsync"; sx_zs n]
   | Close n => SL [sx_w "close"; sx_zs n]
   | FsyncDir p => SL [sx_w "fsyncdir"; sx_zs p]
+  | Unlink n => SL [sx_w "unlink"; sx_zs n]
   end.
 
 Definition ev_of_sx (x : sx) : option ev :=
@@ -43,7 +44,7 @@ Definition ev_of_sx (x : sx) : option ev :=
       match sx_get_zs n with
       | Some n' => if is_tag "mkdir" t then Some (Mkdir n') else if is_tag "open" t then Some (Open n')
                    else if is_tag "fsync" t then Some (Fsync n') else if is_tag "close" t then Some (Close n')
-                   else if is_tag "fsyncdir" t then Some (FsyncDir n') else None
+                   else if is_tag "fsyncdir" t then Some (FsyncDir n') else if is_tag "unlink" t then Some (Unlink n') else None
       | None => None
       end
   | SL [SS t; SL n; SL d] =>
